@@ -118,6 +118,11 @@ def judge(msgs, sizes, trunc):
     data = frame_bytes(msgs)
     # the sender side: whatever primitive send_msg uses, every byte of every message is on the wire when it returns - also over a socket whose
     # send()/sendmsg() write short
+    # size: the framing carries any message whose pickle fits the 4-byte length - there is no smaller limit on either side
+    big = ['x' * (5 << 20)]
+    rb = run_recv(frame_bytes(big), [], 1, timeout=20)
+    if rb['error'] is not None or rb['received'] != big:
+        return True, {'received': [], 'error': f'a message of 5 MiB was not delivered: {rb["error"]!r} (received {len(rb["received"])} message(s))', 'hung': rb['hung'], 'pos': rb['pos']}
     # failure classification: ANY failure of the socket while sending is reported as ConnectionClosedError (what the server's accept loop, the context
     # helper and the workers' clean-up paths are prepared for) - also errors that are not ConnectionError subclasses, e.g. EBADF on a socket another
     # thread has just closed
